@@ -84,7 +84,7 @@ def proc_ids(pid):
 
 class Server:
     def __init__(self, worker_class="sync", workers=1, threads=None, args=(), bind="tcp", pidfile=False,
-                 config=None, env=None, name="srv", daemon=False):
+                 config=None, env=None, name="srv", daemon=False, tls=False):
         self.dir = tempfile.mkdtemp(prefix=name + "_", dir=_scratch())
         self.port = None
         self.sockpath = None
@@ -109,6 +109,10 @@ class Server:
         if self.pidfile:
             self.cmd += ["-p", self.pidfile]
         self.daemon = daemon
+        self.tls = tls
+        if tls:
+            self.cmd += ["--certfile", os.path.join(REPO, "examples", "server.crt"),
+                         "--keyfile", os.path.join(REPO, "examples", "server.key")]
         self._pid = None
         if daemon:
             # the launcher exits after the double fork; the master is found through its pid file
@@ -191,7 +195,7 @@ class Server:
     def signal(self, sig, pid=None):
         os.kill(pid or self.pid, sig)
 
-    def connect(self, timeout=5.0, port=None):
+    def connect(self, timeout=5.0, port=None, raw=False):
         if self.port or port:
             s = socket.socket(socket.AF_INET, socket.SOCK_STREAM)
             s.settimeout(timeout)
@@ -200,6 +204,16 @@ class Server:
             s = socket.socket(socket.AF_UNIX, socket.SOCK_STREAM)
             s.settimeout(timeout)
             s.connect(self.sockpath)
+        if self.tls and not raw:
+            import ssl
+            ctx = ssl.SSLContext(ssl.PROTOCOL_TLS_CLIENT)
+            ctx.check_hostname = False
+            ctx.verify_mode = ssl.CERT_NONE
+            try:
+                s = ctx.wrap_socket(s)
+            except (ssl.SSLError, OSError) as e:
+                s.close()
+                raise ConnectionResetError("tls handshake failed: %s" % e)
         return s
 
     def get(self, path, timeout=5.0, sock=None, keepalive=False, method="GET", body=b"", port=None):
